@@ -25,7 +25,9 @@ def tla_desc_to_py(d: dict) -> dict:
     for f in d["funcs"]:
         funcs.append({"name": f["name"], "params": list(f["params"]), "outputs": list(f["outputs"]),
                       "defaults": {p: v for p, v in f["defaults"]}, "bound": {p: v for p, v in f["bound"]},
-                      "mapspec": None, "internal_shape": list(f.get("internal", [])), "cache": bool(f.get("cache", False))})
+                      "mapspec": None, "internal_shape": list(f.get("internal", [])), "cache": bool(f.get("cache", False)),
+                      "retnone": bool(f.get("retnone", False)), "outperm": bool(f.get("outperm", False)),
+                      "outrenamed": bool(f.get("outrenamed", False))})
     return {"funcs": funcs}
 
 
